@@ -1834,4 +1834,469 @@ theorem pairs_empty_finite : (pairs (fun _ _ => false)).Finite := by
 
 /-! ## uninterpreted in specs.py, NO schema emitted: `gdom`, `grng`, `rowlits`, `collits`. -/
 
+
+/-! # Fourth batch of schemas -/
+
+/-! ## TSeq witnesses `tmpos`, `tzpos` (mirror of `mpos`, `zpos`) -/
+
+def tmpos (t : TSeq) : ℤ := mpos (tlits t)
+def tzpos (t : TSeq) : ℤ := zpos (tlits t)
+
+theorem ilen_tlits (t : TSeq) : ilen (tlits t) = tlen t := by simp [ilen, tlits, tlen]
+
+theorem tlit_eq_iget (t : TSeq) (i : ℤ) (h0 : 0 ≤ i) : tlit t i = iget (tlits t) i := by
+  unfold tlit tget iget tlits
+  rw [if_pos h0, List.getD_eq_getElem?_getD, List.getD_eq_getElem?_getD, List.getElem?_map]
+  cases t[i.toNat]? <;> rfl
+
+/-- `tlen(t) > 0 -> And(0 <= tmpos(t), tmpos(t) < tlen(t), zabs(tlit(t, tmpos(t))) == tmaxabs(t))` -/
+theorem tmaxabs_witness (t : TSeq) :
+    tlen t > 0 → (0 ≤ tmpos t ∧ tmpos t < tlen t ∧ zabs (tlit t (tmpos t)) = tmaxabs t) := by
+  intro h
+  rw [← ilen_tlits] at h
+  obtain ⟨h0, h1, h2⟩ := maxabs_witness (tlits t) h
+  rw [ilen_tlits] at h1
+  unfold tmpos tmaxabs
+  rw [tlit_eq_iget t _ h0]
+  exact ⟨h0, h1, h2⟩
+
+/-- `tlen(t) == 0 -> tmaxabs(t) == 0` -/
+theorem tmaxabs_of_length_zero (t : TSeq) : tlen t = 0 → tmaxabs t = 0 := by
+  intro h
+  rw [← ilen_tlits] at h
+  exact maxabs_of_length_zero _ h
+
+/-- `thaszero(t) -> And(0 <= tzpos(t), tzpos(t) < tlen(t), tlit(t, tzpos(t)) == 0)` -/
+theorem thaszero_witness (t : TSeq) :
+    thaszero t → (0 ≤ tzpos t ∧ tzpos t < tlen t ∧ tlit t (tzpos t) = 0) := by
+  intro h
+  obtain ⟨h0, h1, h2⟩ := haszero_witness (tlits t) h
+  rw [ilen_tlits] at h1
+  unfold tzpos
+  rw [tlit_eq_iget t _ h0]
+  exact ⟨h0, h1, h2⟩
+
+/-- `And(0 <= i, i < tlen(t), tlit(t, i) == 0) -> thaszero(t)` -/
+theorem thaszero_of_get (t : TSeq) (i : ℤ) : (0 ≤ i ∧ i < tlen t ∧ tlit t i = 0) → thaszero t := by
+  rintro ⟨h0, h1, h2⟩
+  unfold thaszero haszero
+  rw [← h2]; exact tlit_mem t i h0 h1
+
+/-! ## `oappc(O, C)`: `O` followed by the constraint `sum of the clause's literals >= 1` per clause of `C` -/
+
+def clauseCon (cl : ISeq) : Con := ⟨tunit cl, ">=", 1⟩
+def oappc (o : OSeq) (c : CSeq) : OSeq := o ++ c.map clauseCon
+
+theorem omaxabs_map_clauseCon (c : CSeq) : omaxabs (c.map clauseCon) = cmaxabs c := by
+  induction c with
+  | nil => rfl
+  | cons x t ih =>
+    rw [List.map_cons, omaxabs_cons, cmaxabs_cons, ih]
+    simp only [clauseCon, tmaxabs_unit]
+
+/-- `c == cnil -> oappc(o, c) == o` -/
+theorem oappc_nil (o : OSeq) (c : CSeq) : c = cnil → oappc o c = o := by
+  rintro rfl; simp [oappc, cnil]
+
+/-- `olen(oappc(o, c)) == olen(o) + clen(c)` -/
+theorem olen_oappc (o : OSeq) (c : CSeq) : olen (oappc o c) = olen o + clen c := by
+  simp [olen, oappc, clen]
+
+/-- `omaxabs(oappc(o, c)) == zmax(omaxabs(o), cmaxabs(c))` -/
+theorem omaxabs_oappc (o : OSeq) (c : CSeq) : omaxabs (oappc o c) = zmax (omaxabs o) (cmaxabs c) := by
+  rw [zmax_eq_max]
+  unfold oappc
+  rw [omaxabs_append, omaxabs_map_clauseCon]
+
+/-- `ohaszero(oappc(o, c)) == Or(ohaszero(o), chaszero(c))` -/
+theorem ohaszero_oappc (o : OSeq) (c : CSeq) : ohaszero (oappc o c) ↔ (ohaszero o ∨ chaszero c) := by
+  unfold ohaszero oappc chaszero
+  constructor
+  · rintro ⟨d, hd, h0⟩
+    rcases List.mem_append.mp hd with h | h
+    · exact Or.inl ⟨d, h, h0⟩
+    · obtain ⟨cl, hcl, rfl⟩ := List.mem_map.mp h
+      exact Or.inr ⟨cl, hcl, (thaszero_unit cl).mp h0⟩
+  · rintro (⟨d, hd, h0⟩ | ⟨cl, hcl, h0⟩)
+    · exact ⟨d, List.mem_append_left _ hd, h0⟩
+    · exact ⟨clauseCon cl, List.mem_append_right _ (List.mem_map.mpr ⟨cl, hcl, rfl⟩),
+        (thaszero_unit cl).mpr h0⟩
+
+/-- `onormal(oappc(o, c)) == onormal(o)` -/
+theorem onormal_oappc (o : OSeq) (c : CSeq) : onormal (oappc o c) ↔ onormal o := by
+  unfold onormal oappc
+  constructor
+  · intro h d hd; exact h d (List.mem_append_left _ hd)
+  · intro h d hd
+    rcases List.mem_append.mp hd with h' | h'
+    · exact h d h'
+    · obtain ⟨cl, _, rfl⟩ := List.mem_map.mp h'
+      exact ⟨tnonneg_unit cl, Or.inl rfl⟩
+
+/-- `otake(oappc(o, c), olen(o)) == o` -/
+theorem otake_oappc_len (o : OSeq) (c : CSeq) : otake (oappc o c) (olen o) = o := by
+  simp [otake, oappc, olen]
+
+/-- `oappc(o, csnoc(c2, s2)) == osnoc(oappc(o, c2), mkcon(tunit(s2), '>=', 1))` -/
+theorem oappc_snoc (o : OSeq) (c2 : CSeq) (s2 : ISeq) :
+    oappc o (csnoc c2 s2) = osnoc (oappc o c2) ⟨tunit s2, ">=", 1⟩ := by
+  simp [oappc, csnoc, osnoc, clauseCon, List.append_assoc]
+
+/-- `c == csnoc(c2, s2) -> oappc(o, c) == osnoc(oappc(o, c2), mkcon(tunit(s2), '>=', 1))` -/
+theorem oappc_snoc_of_eq (o : OSeq) (c c2 : CSeq) (s2 : ISeq) :
+    c = csnoc c2 s2 → oappc o c = osnoc (oappc o c2) ⟨tunit s2, ">=", 1⟩ := by
+  rintro rfl; exact oappc_snoc o c2 s2
+
+theorem holds_clauseCon (a : Asg) (cl : ISeq) : holds a (clauseCon cl) ↔ ctrue a cl := by
+  unfold holds clauseCon cmp_op
+  simp only [if_true]
+  rw [wsum_unit, ctrue_iff_count_pos]
+
+/-- `osat(a, oappc(o, c)) == And(osat(a, o), sat(a, c))` -/
+theorem osat_oappc (a : Asg) (o : OSeq) (c : CSeq) : osat a (oappc o c) ↔ (osat a o ∧ sat a c) := by
+  unfold osat oappc sat
+  constructor
+  · intro h
+    refine ⟨fun d hd => h d (List.mem_append_left _ hd), fun cl hcl => ?_⟩
+    exact (holds_clauseCon a cl).mp
+      (h _ (List.mem_append_right _ (List.mem_map.mpr ⟨cl, hcl, rfl⟩)))
+  · rintro ⟨h1, h2⟩ d hd
+    rcases List.mem_append.mp hd with h | h
+    · exact h1 d h
+    · obtain ⟨cl, hcl, rfl⟩ := List.mem_map.mp h
+      exact (holds_clauseCon a cl).mpr (h2 cl hcl)
+
+/-! ## the `!=` builder: `iflip1`, `iflips`, `idxcombs`, `distinct_idx`, `neqprefix` -/
+
+/-- negate position `i` (no-op when `i` is not a valid position) -/
+def flipAt : List ℤ → ℕ → List ℤ
+  | [], _ => []
+  | x :: t, 0 => (-x) :: t
+  | x :: t, n+1 => x :: flipAt t n
+
+/-- `s` with `s[i]` negated; unchanged when `i < 0` or `i ≥ len s` -/
+def iflip1 (s : ISeq) (i : ℤ) : ISeq := if 0 ≤ i then flipAt s i.toNat else s
+/-- `s` with the positions `F[0..t)` negated one after the other -/
+def iflips (s F : ISeq) (t : ℤ) : ISeq := (F.take t.toNat).foldl iflip1 s
+/-- `itertools.combinations(range(n), c)` as index tuples; no element when `c < 0` (python raises).
+    Enumeration order = that of `List.sublistsLen` (not itertools'); all schemas below hold for any
+    fixed enumeration order (the prefix schemas only use `cget`/`clen` of the same list). -/
+def idxcombs (n c : ℤ) : CSeq := if c < 0 then [] else List.sublistsLen c.toNat (idx n)
+/-- the entries are pairwise distinct -/
+def distinct_idx (F : ISeq) : Prop := F.Nodup
+/-- `[iflips(s, F, c) for F in idxcombs(len s, c)[:t]]` -/
+def neqprefix (s : ISeq) (c t : ℤ) : CSeq :=
+  ((idxcombs (ilen s) c).take t.toNat).map (fun F => iflips s F c)
+
+theorem flipAt_length (s : List ℤ) (i : ℕ) : (flipAt s i).length = s.length := by
+  induction s generalizing i with
+  | nil => rfl
+  | cons x t ih => cases i <;> simp [flipAt, ih]
+
+theorem flipAt_natAbs (s : List ℤ) (i : ℕ) : (flipAt s i).map Int.natAbs = s.map Int.natAbs := by
+  induction s generalizing i with
+  | nil => rfl
+  | cons x t ih => cases i <;> simp [flipAt, ih]
+
+theorem flipAt_getD (s : List ℤ) (i j : ℕ) :
+    (flipAt s i)[j]?.getD 0 = if j = i then -(s[j]?.getD 0) else s[j]?.getD 0 := by
+  induction s generalizing i j with
+  | nil => simp [flipAt]
+  | cons x t ih => cases i <;> cases j <;> simp [flipAt, ih]
+
+theorem flipAt_flipAt (s : List ℤ) (i : ℕ) : flipAt (flipAt s i) i = s := by
+  induction s generalizing i with
+  | nil => rfl
+  | cons x t ih => cases i <;> simp [flipAt, ih]
+
+theorem flipAt_comm (s : List ℤ) (i j : ℕ) : flipAt (flipAt s i) j = flipAt (flipAt s j) i := by
+  induction s generalizing i j with
+  | nil => rfl
+  | cons x t ih => cases i <;> cases j <;> simp [flipAt, ih]
+
+theorem iflip1_natAbs (s : ISeq) (i : ℤ) : (iflip1 s i).map Int.natAbs = s.map Int.natAbs := by
+  unfold iflip1; split
+  · exact flipAt_natAbs _ _
+  · rfl
+
+theorem iflip1_iflip1 (s : ISeq) (i : ℤ) : iflip1 (iflip1 s i) i = s := by
+  unfold iflip1; split
+  · exact flipAt_flipAt _ _
+  · rfl
+
+theorem iflip1_comm (s : ISeq) (i j : ℤ) : iflip1 (iflip1 s i) j = iflip1 (iflip1 s j) i := by
+  unfold iflip1
+  by_cases hi : 0 ≤ i <;> by_cases hj : 0 ≤ j <;> simp only [hi, hj, if_true, if_false]
+  exact flipAt_comm _ _ _
+
+theorem foldl_iflip1_natAbs (F : List ℤ) (s : ISeq) :
+    (F.foldl iflip1 s).map Int.natAbs = s.map Int.natAbs := by
+  induction F generalizing s with
+  | nil => rfl
+  | cons a F ih => rw [List.foldl_cons, ih, iflip1_natAbs]
+
+theorem iflips_natAbs (s F : ISeq) (t : ℤ) : (iflips s F t).map Int.natAbs = s.map Int.natAbs :=
+  foldl_iflip1_natAbs _ _
+
+theorem length_eq_of_natAbs {s s' : ISeq} (h : s.map Int.natAbs = s'.map Int.natAbs) :
+    ilen s = ilen s' := by
+  have := congrArg List.length h
+  simp only [List.length_map] at this
+  unfold ilen; rw [this]
+
+/-- `ilen(iflip1(s, i)) == ilen(s)` (no guard on `i`) -/
+theorem ilen_iflip1 (s : ISeq) (i : ℤ) : ilen (iflip1 s i) = ilen s :=
+  length_eq_of_natAbs (iflip1_natAbs s i)
+/-- `maxabs(iflip1(s, i)) == maxabs(s)` (no guard on `i`) -/
+theorem maxabs_iflip1 (s : ISeq) (i : ℤ) : maxabs (iflip1 s i) = maxabs s :=
+  maxabs_congr_natAbs _ _ (iflip1_natAbs s i)
+/-- `haszero(iflip1(s, i)) == haszero(s)` (no guard on `i`) -/
+theorem haszero_iflip1 (s : ISeq) (i : ℤ) : haszero (iflip1 s i) ↔ haszero s :=
+  haszero_congr_natAbs _ _ (iflip1_natAbs s i)
+
+/-- `t == 0 -> iflips(s, F, t) == s` -/
+theorem iflips_zero (s F : ISeq) (t : ℤ) : t = 0 → iflips s F t = s := by
+  rintro rfl; simp [iflips]
+
+/-- `And(0 <= t, t < ilen(F)) -> iflips(s, F, t + 1) == iflip1(iflips(s, F, t), iget(F, t))` -/
+theorem iflips_succ (s F : ISeq) (t : ℤ) : (0 ≤ t ∧ t < ilen F) →
+    iflips s F (t + 1) = iflip1 (iflips s F t) (iget F t) := by
+  rintro ⟨h0, h1⟩
+  unfold ilen at h1
+  have hlt : t.toNat < F.length := by omega
+  have hk : (t + 1).toNat = t.toNat + 1 := by omega
+  unfold iflips iget
+  rw [hk, List.take_add_one, List.getElem?_eq_getElem hlt, List.foldl_append,
+    List.getD_eq_getElem?_getD, List.getElem?_eq_getElem hlt]
+  rfl
+
+/-- `ilen(iflips(s, F, t)) == ilen(s)` -/
+theorem ilen_iflips (s F : ISeq) (t : ℤ) : ilen (iflips s F t) = ilen s :=
+  length_eq_of_natAbs (iflips_natAbs s F t)
+/-- `maxabs(iflips(s, F, t)) == maxabs(s)` -/
+theorem maxabs_iflips (s F : ISeq) (t : ℤ) : maxabs (iflips s F t) = maxabs s :=
+  maxabs_congr_natAbs _ _ (iflips_natAbs s F t)
+/-- `haszero(iflips(s, F, t)) == haszero(s)` -/
+theorem haszero_iflips (s F : ISeq) (t : ℤ) : haszero (iflips s F t) ↔ haszero s :=
+  haszero_congr_natAbs _ _ (iflips_natAbs s F t)
+
+theorem idxcombs_mem (n k : ℤ) (F : ISeq) (h : F ∈ idxcombs n k) :
+    0 ≤ k ∧ List.Sublist F (idx n) ∧ F.length = k.toNat := by
+  unfold idxcombs at h
+  by_cases hk : k < 0
+  · rw [if_pos hk] at h; cases h
+  · rw [if_neg hk, List.mem_sublistsLen] at h
+    exact ⟨by omega, h.1, h.2⟩
+
+/-- `And(0 <= t, t < clen(idxcombs(n, k))) -> distinct_idx(cget(idxcombs(n, k), t))` -/
+theorem idxcombs_distinct (n k t : ℤ) : (0 ≤ t ∧ t < clen (idxcombs n k)) →
+    distinct_idx (cget (idxcombs n k) t) := by
+  intro h
+  obtain ⟨_, hsub, _⟩ := idxcombs_mem n k _ (cget_mem _ t h)
+  exact (idx_nodup n).sublist hsub
+
+/-- `And(0 <= t, t < clen(idxcombs(n, k))) -> And(ilen(F) == k, ForAll([j], Implies(And(0 <= j, j < k),
+    And(0 <= iget(F, j), iget(F, j) < n))))`, `F = cget(idxcombs(n, k), t)` -/
+theorem idxcombs_elem (n k t : ℤ) : (0 ≤ t ∧ t < clen (idxcombs n k)) →
+    (ilen (cget (idxcombs n k) t) = k ∧
+     ∀ j : ℤ, (0 ≤ j ∧ j < k) → (0 ≤ iget (cget (idxcombs n k) t) j ∧ iget (cget (idxcombs n k) t) j < n)) := by
+  intro h
+  obtain ⟨hk, hsub, hlen⟩ := idxcombs_mem n k _ (cget_mem _ t h)
+  have hl : ilen (cget (idxcombs n k) t) = k := by unfold ilen; omega
+  refine ⟨hl, ?_⟩
+  rintro j ⟨hj0, hj1⟩
+  have := hsub.subset (iget_mem _ j hj0 (by rw [hl]; exact hj1))
+  exact (mem_idx n _).mp this
+
+theorem foldl_iflip1_comm (F : List ℤ) (s : ISeq) (a : ℤ) :
+    iflip1 (F.foldl iflip1 s) a = F.foldl iflip1 (iflip1 s a) := by
+  induction F generalizing s with
+  | nil => rfl
+  | cons b F ih => rw [List.foldl_cons, List.foldl_cons, ih, iflip1_comm]
+
+theorem foldl_iflip1_twice (F : List ℤ) (s : ISeq) : F.foldl iflip1 (F.foldl iflip1 s) = s := by
+  induction F generalizing s with
+  | nil => rfl
+  | cons a F ih =>
+    rw [List.foldl_cons, List.foldl_cons, ← foldl_iflip1_comm F s a, iflip1_iflip1, ih]
+
+/-- un-flipping: `And(F0 == F, t0 == ilen(F), t == ilen(F), distinct_idx(F)) ->
+    iflips(iflips(s0, F0, t0), F, t) == s0`.
+    Neither `distinct_idx(F)` nor any range condition is used: with `iflip1` a no-op outside the list,
+    flips commute and each one is an involution, so a complete second pass always restores `s0`. -/
+theorem iflips_unflip (s0 F0 F : ISeq) (t0 t : ℤ) :
+    (F0 = F ∧ t0 = ilen F ∧ t = ilen F ∧ distinct_idx F) → iflips (iflips s0 F0 t0) F t = s0 := by
+  rintro ⟨rfl, rfl, rfl, _⟩
+  unfold iflips ilen
+  rw [Int.toNat_natCast, List.take_length]
+  exact foldl_iflip1_twice _ _
+
+theorem neqprefix_mem (s : ISeq) (c t : ℤ) : ∀ cl ∈ neqprefix s c t,
+    cl.map Int.natAbs = s.map Int.natAbs := by
+  intro cl hcl
+  unfold neqprefix at hcl
+  obtain ⟨F, _, rfl⟩ := List.mem_map.mp hcl
+  exact iflips_natAbs s F c
+
+/-- `t == 0 -> neqprefix(s, c, t) == cnil` -/
+theorem neqprefix_zero (s : ISeq) (c t : ℤ) : t = 0 → neqprefix s c t = cnil := by
+  rintro rfl; simp [neqprefix, cnil]
+
+/-- `And(0 <= t, t < clen(idxcombs(n, c))) -> neqprefix(s, c, t + 1) ==
+    csnoc(neqprefix(s, c, t), iflips(s, cget(idxcombs(n, c), t), c))`, `n = ilen(s)` -/
+theorem neqprefix_succ (s : ISeq) (c t : ℤ) : (0 ≤ t ∧ t < clen (idxcombs (ilen s) c)) →
+    neqprefix s c (t + 1) =
+      csnoc (neqprefix s c t) (iflips s (cget (idxcombs (ilen s) c) t) c) := by
+  rintro ⟨h0, h1⟩
+  unfold clen at h1
+  have hlt : t.toNat < (idxcombs (ilen s) c).length := by omega
+  have hk : (t + 1).toNat = t.toNat + 1 := by omega
+  unfold neqprefix csnoc cget
+  rw [hk, List.take_add_one, List.getElem?_eq_getElem hlt, List.map_append,
+    List.getD_eq_getElem?_getD, List.getElem?_eq_getElem hlt]
+  rfl
+
+/-- `And(0 <= t, t <= clen(idxcombs(n, c))) -> And(cmaxabs(neqprefix(s, c, t)) <= maxabs(s),
+    Implies(Not(haszero(s)), Not(chaszero(neqprefix(s, c, t)))))` (the guard is not needed) -/
+theorem neqprefix_bounds (s : ISeq) (c t : ℤ) : (0 ≤ t ∧ t ≤ clen (idxcombs (ilen s) c)) →
+    (cmaxabs (neqprefix s c t) ≤ maxabs s ∧ (¬ haszero s → ¬ chaszero (neqprefix s c t))) := by
+  intro _
+  constructor
+  · rw [cmaxabs_le_iff _ _ (maxabs_nonneg' s)]
+    intro cl hcl
+    rw [maxabs_congr_natAbs _ _ (neqprefix_mem s c t cl hcl)]
+  · rintro hz ⟨cl, hcl, h0⟩
+    exact hz ((haszero_congr_natAbs _ _ (neqprefix_mem s c t cl hcl)).mp h0)
+
+/-! ### L5 NEQ at the literal level -/
+
+/-- L5 over an arbitrary duplicate-free index list (same proof as design_probes/Neq.lean `neq_main`) -/
+theorem neq_generic {ι : Type} [DecidableEq ι] (L : List ι) (hnd : L.Nodup) (b : ι → Bool) (c : ℕ) :
+    (∀ T ∈ List.sublistsLen c L, ∃ i ∈ L, (i ∈ T ∧ b i = false) ∨ (i ∉ T ∧ b i = true)) ↔
+      L.countP b ≠ c := by
+  have hsub : List.Sublist (L.filter b) L := List.filter_sublist
+  have hlen : (L.filter b).length = L.countP b := by rw [List.countP_eq_length_filter]
+  constructor
+  · intro h hc
+    have hT : L.filter b ∈ List.sublistsLen c L := by
+      rw [List.mem_sublistsLen]; exact ⟨hsub, by rw [hlen, hc]⟩
+    obtain ⟨i, hi, h1 | h1⟩ := h _ hT
+    · have := (List.mem_filter.mp h1.1).2
+      rw [this] at h1; exact absurd h1.2 (by simp)
+    · exact h1.1 (List.mem_filter.mpr ⟨hi, h1.2⟩)
+  · intro hne T hT
+    rw [List.mem_sublistsLen] at hT
+    by_contra hno
+    push Not at hno
+    have hmem : ∀ i, i ∈ T ↔ i ∈ L.filter b := by
+      intro i
+      rw [List.mem_filter]
+      constructor
+      · intro hiT
+        have hin : i ∈ L := hT.1.subset hiT
+        refine ⟨hin, ?_⟩
+        by_contra hb
+        have hb' : b i = false := by simpa using hb
+        exact ((hno i hin).1 hiT) hb'
+      · rintro ⟨hin, hb⟩
+        by_contra hiT
+        exact ((hno i hin).2 hiT) hb
+    have hperm : T.Perm (L.filter b) :=
+      (List.perm_ext_iff_of_nodup (hnd.sublist hT.1) (hnd.sublist hsub)).mpr hmem
+    have : T.length = (L.filter b).length := hperm.length_eq
+    rw [hlen, hT.2] at this
+    exact hne this.symm
+
+theorem iget_iflip1 (s : ISeq) (i j : ℤ) (hj : 0 ≤ j) :
+    iget (iflip1 s i) j = if j = i then -(iget s j) else iget s j := by
+  unfold iget iflip1
+  by_cases hi : 0 ≤ i
+  · rw [if_pos hi, List.getD_eq_getElem?_getD, List.getD_eq_getElem?_getD, flipAt_getD]
+    have : (j.toNat = i.toNat) ↔ j = i := by omega
+    simp only [this]
+  · rw [if_neg hi, if_neg (by omega)]
+
+theorem iget_foldl_iflip1 (F : List ℤ) (hnd : F.Nodup) (s : ISeq) (j : ℤ) (hj : 0 ≤ j) :
+    iget (F.foldl iflip1 s) j = if j ∈ F then -(iget s j) else iget s j := by
+  induction F generalizing s with
+  | nil => simp
+  | cons a F ih =>
+    rw [List.nodup_cons] at hnd
+    rw [List.foldl_cons, ih hnd.2, iget_iflip1 s a j hj]
+    by_cases hja : j = a
+    · subst hja; simp [hnd.1]
+    · simp [hja]
+
+theorem iget_natCast (s : ISeq) (n : ℕ) (hn : n < s.length) : iget s (n : ℤ) = s[n] := by
+  unfold iget
+  rw [Int.toNat_natCast, List.getD_eq_getElem?_getD, List.getElem?_eq_getElem hn]; rfl
+
+theorem ctrue_iff_idx (α : Asg) (s : ISeq) :
+    ctrue α s ↔ ∃ i ∈ idx (ilen s), litTrue α (iget s i) = true := by
+  unfold ctrue
+  constructor
+  · rintro ⟨l, hl, ht⟩
+    obtain ⟨n, hn, rfl⟩ := List.getElem_of_mem hl
+    refine ⟨(n : ℤ), (mem_idx _ _).mpr ⟨by omega, by unfold ilen; omega⟩, ?_⟩
+    rw [iget_natCast s n hn]; exact ht
+  · rintro ⟨i, hi, ht⟩
+    rw [mem_idx] at hi
+    exact ⟨iget s i, iget_mem s i hi.1 hi.2, ht⟩
+
+theorem self_eq_map_idx (s : ISeq) : s = (idx (ilen s)).map (iget s) := by
+  apply List.ext_getElem
+  · simp [idx, ilen]
+  · intro n h1 h2
+    simp only [idx, ilen, List.getElem_map, List.getElem_range, Int.toNat_natCast]
+    rw [iget_natCast s n h1]
+
+theorem countTrue_eq_idx (α : Asg) (s : ISeq) :
+    countTrue α s = (idx (ilen s)).countP (fun i => litTrue α (iget s i)) := by
+  have := congrArg (List.countP (litTrue α)) (self_eq_map_idx s)
+  rw [List.countP_map] at this
+  exact this
+
+/-- L5 in z3 form: `And(0 <= c, c <= ilen(s), Not(haszero(s)), t == clen(idxcombs(ilen(s), c))) ->
+    sat(a, neqprefix(s, c, t)) == (count(a, s) != c)` -/
+theorem neqprefix_sat (a : Asg) (s : ISeq) (c t : ℤ) :
+    (0 ≤ c ∧ c ≤ ilen s ∧ ¬ haszero s ∧ t = clen (idxcombs (ilen s) c)) →
+    (sat a (neqprefix s c t) ↔ count a s ≠ c) := by
+  rintro ⟨hc0, _, hz, rfl⟩
+  have hgen := neq_generic (idx (ilen s)) (idx_nodup _) (fun i => litTrue a (iget s i)) c.toNat
+  have hcount : count a s ≠ c ↔
+      (idx (ilen s)).countP (fun i => litTrue a (iget s i)) ≠ c.toNat := by
+    unfold count; rw [countTrue_eq_idx]; omega
+  rw [hcount, ← hgen]
+  have hcombs : idxcombs (ilen s) c = List.sublistsLen c.toNat (idx (ilen s)) := by
+    unfold idxcombs; rw [if_neg (by omega)]
+  unfold sat neqprefix clen
+  rw [Int.toNat_natCast, List.take_length, hcombs]
+  have key : ∀ T ∈ List.sublistsLen c.toNat (idx (ilen s)),
+      (ctrue a (iflips s T c) ↔
+        ∃ i ∈ idx (ilen s), (i ∈ T ∧ litTrue a (iget s i) = false) ∨ (i ∉ T ∧ litTrue a (iget s i) = true)) := by
+    intro T hT
+    rw [List.mem_sublistsLen] at hT
+    have hnd : T.Nodup := (idx_nodup _).sublist hT.1
+    have hfold : iflips s T c = T.foldl iflip1 s := by
+      unfold iflips; rw [List.take_of_length_le (by omega)]
+    rw [ctrue_iff_idx, ilen_iflips, hfold]
+    apply exists_congr
+    intro i
+    apply and_congr_right
+    intro hi
+    have hi' := (mem_idx _ _).mp hi
+    rw [iget_foldl_iflip1 T hnd s i hi'.1]
+    have hne : iget s i ≠ 0 := iget_ne_zero s i ⟨hi'.1, hi'.2, hz⟩
+    by_cases hiT : i ∈ T
+    · simp only [hiT, if_true, true_and, not_true_eq_false, false_and, or_false]
+      rw [litTrue_neg a _ hne]
+      cases litTrue a (iget s i) <;> simp
+    · simp [hiT]
+  constructor
+  · intro h T hT
+    exact (key T hT).mp (h _ (List.mem_map.mpr ⟨T, hT, rfl⟩))
+  · intro h cl hcl
+    obtain ⟨T, hT, rfl⟩ := List.mem_map.mp hcl
+    exact (key T hT).mpr (h T hT)
+
 end CnfSem
